@@ -115,17 +115,18 @@ def check(chk: Check) -> None:
             numeric_entry = True
             src = N.unbounded_int_source(arg)
             if src is not None:
-                rets[src] = (False, 'returns Decimal(%s): the constructor is exact, so the Python int of unbounded size '
-                                    'escapes un-rounded (e.g. a 1-digit Decimal with exponent 99999 becomes a 100000-digit number)' % src)
+                rets['exact Decimal of ' + N.source_kind(arg)] = (
+                    False, 'returns Decimal(%s): the constructor is exact, so the digits of unbounded number escape un-rounded '
+                           '(e.g. a 1-digit Decimal with exponent 99999 becomes a 100000-digit number)' % src)
             else:
                 rets.setdefault(show(arg), (True, 'returns Decimal(%s)' % show(arg)))
         if not numeric_entry:
             continue
         bad = {k: v for k, v in rets.items() if not v[0]}
         where = '%s:%d' % (fi.module.rel, ent.line)
-        if bad:
-            chk.bad(R2, ent.label, where, '; '.join(v[1] for v in bad.values()))
-        else:
+        for k, v in sorted(bad.items()):
+            chk.bad(R2, '%s :: %s' % (ent.label, k), where, v[1])
+        if not bad:
             chk.ok(R2, ent.label, where, '; '.join(v[1] for v in rets.values()) or 'returns its argument / a Python builtin result')
 
     N.context_untouched(chk, R3)
@@ -149,6 +150,7 @@ def check(chk: Check) -> None:
                                         '(`s *= 3` repeats the string)' if '__index__' in bad4 else 'multiplication / exponentiation no longer '
                                         'is the context-rounded Decimal operation') if bad4 else
                     'inherits *, ** from %s and has no __index__' % ', '.join(bases))
+    N.number_constructor(chk, R4)
     if n4 == 0:
         chk.ok(R4, 'number classes', 'smartquery/custom_types.py', 'the package defines no subclass of a numeric type')
 
